@@ -292,4 +292,767 @@ theorem decode_encode (v : Val) (rest : List Nat) (hw : WellFormed v) :
   unfold decode
   exact decodeF_encode v _ rest hw (by simp)
 
+
+/-! ## fuel monotonicity: more nesting budget never changes a successful result -/
+
+theorem decodeSeq_mono (d1 d2 : List Nat → Option (Val × List Nat))
+    (h : ∀ bs r, d1 bs = some r → d2 bs = some r) :
+    ∀ n bs r, decodeSeq d1 n bs = some r → decodeSeq d2 n bs = some r := by
+  intro n
+  induction n with
+  | zero => intro bs r hr; simpa [decodeSeq] using hr
+  | succ n ih =>
+    intro bs r hr
+    simp only [decodeSeq] at hr ⊢
+    cases h1 : d1 bs with
+    | none => simp [h1] at hr
+    | some p =>
+      obtain ⟨v, r1⟩ := p
+      rw [h1] at hr
+      rw [h bs _ h1]
+      simp only at hr ⊢
+      cases h2 : decodeSeq d1 n r1 with
+      | none => simp [h2] at hr
+      | some q => rw [h2] at hr; rw [ih r1 q h2]; exact hr
+
+theorem decodePairs_mono (d1 d2 : List Nat → Option (Val × List Nat))
+    (h : ∀ bs r, d1 bs = some r → d2 bs = some r) :
+    ∀ n bs r, decodePairs d1 n bs = some r → decodePairs d2 n bs = some r := by
+  intro n
+  induction n with
+  | zero => intro bs r hr; simpa [decodePairs] using hr
+  | succ n ih =>
+    intro bs r hr
+    simp only [decodePairs] at hr ⊢
+    cases h1 : d1 bs with
+    | none => simp [h1] at hr
+    | some p =>
+      obtain ⟨k, r1⟩ := p
+      rw [h1] at hr
+      rw [h bs _ h1]
+      simp only at hr ⊢
+      cases h2 : d1 r1 with
+      | none => simp [h2] at hr
+      | some p2 =>
+        obtain ⟨v, r2⟩ := p2
+        rw [h2] at hr
+        rw [h r1 _ h2]
+        simp only at hr ⊢
+        cases h3 : decodePairs d1 n r2 with
+        | none => simp [h3] at hr
+        | some q => rw [h3] at hr; rw [ih r2 q h3]; exact hr
+
+theorem decodeF_succ (f : Nat) : ∀ bs r, decodeF f bs = some r → decodeF (f + 1) bs = some r := by
+  induction f with
+  | zero => intro bs r h; simp [decodeF] at h
+  | succ f ih =>
+    intro bs r h
+    rw [decodeF] at h ⊢
+    cases hd : decodeHead bs with
+    | none => simp [hd] at h
+    | some p =>
+      obtain ⟨hh, r1⟩ := p
+      rw [hd] at h
+      cases hh with
+      | arr n =>
+        simp only at h ⊢
+        cases hs : decodeSeq (decodeF f) n r1 with
+        | none => simp [hs] at h
+        | some q => rw [hs] at h; rw [decodeSeq_mono _ _ ih n r1 q hs]; exact h
+      | map n =>
+        simp only at h ⊢
+        cases hs : decodePairs (decodeF f) n r1 with
+        | none => simp [hs] at h
+        | some q => rw [hs] at h; rw [decodePairs_mono _ _ ih n r1 q hs]; exact h
+      | _ => exact h
+
+theorem decodeF_le {f g : Nat} (hfg : f ≤ g) (bs : List Nat) (r : Val × List Nat)
+    (h : decodeF f bs = some r) : decodeF g bs = some r := by
+  induction hfg with
+  | refl => exact h
+  | step _ ih => exact decodeF_succ _ bs r ih
+
+/-- with any budget the decoder either gives up or returns exactly the encoded value and what followed -/
+theorem decodeF_encode_or_none (v : Val) (fuel : Nat) (rest : List Nat) (hw : wf v = true) :
+    decodeF fuel (encode v ++ rest) = none ∨ decodeF fuel (encode v ++ rest) = some (v, rest) := by
+  cases h : decodeF fuel (encode v ++ rest) with
+  | none => exact Or.inl rfl
+  | some r =>
+    right
+    have big := decodeF_encode v (max fuel (encode v).length) rest hw (Nat.le_max_right _ _)
+    have := decodeF_le (Nat.le_max_left fuel (encode v).length) _ r h
+    rw [big] at this
+    exact congrArg some (Option.some.inj this).symm ▸ rfl
+
+/-! ## prefix-freeness: no strict prefix of an encoding decodes -/
+
+theorem readBE_short (k : Nat) (bs : List Nat) (h : bs.length < k) : readBE k bs = none := by
+  simp [readBE, h]
+
+theorem takeN_short (n : Nat) (bs : List Nat) (h : bs.length < n) : takeN n bs = none := by
+  simp [takeN, h]
+
+theorem take_cons_toBE (m k x n : Nat) (hn : n < k + 1) :
+    (m :: toBE k x).take n = [] ∨ ∃ t, (m :: toBE k x).take n = m :: t ∧ t.length < k := by
+  cases n with
+  | zero => exact Or.inl rfl
+  | succ j =>
+    right
+    refine ⟨(toBE k x).take j, rfl, ?_⟩
+    rw [List.length_take, toBE_length]; omega
+
+
+set_option hygiene false in
+macro "pfx_multi" k:term : tactic =>
+  `(tactic| (
+    simp only [List.length_cons, toBE_length] at hn
+    rcases take_cons_toBE _ $k _ n (by omega) with h0 | ⟨t, ht, hl⟩
+    · rw [h0]; rfl
+    · rw [ht]; simp [decodeHead, readBE_short _ t hl]))
+
+set_option hygiene false in
+macro "pfx_two" : tactic =>
+  `(tactic| (
+    simp only [List.length_cons, List.length_nil] at hn
+    have : n = 0 ∨ n = 1 := by omega
+    rcases this with rfl | rfl
+    · rfl
+    · simp [decodeHead, readBE]))
+
+set_option hygiene false in
+macro "pfx_one" : tactic =>
+  `(tactic| (
+    simp only [List.length_cons, List.length_nil] at hn
+    have : n = 0 := by omega
+    subst this; rfl))
+
+/-- no strict prefix of a head (marker + length / immediate bytes) decodes -/
+theorem head_prefix_none (h : Head) (n : Nat) (hn : n < (encodeHead h).length) :
+    decodeHead ((encodeHead h).take n) = none := by
+  cases h with
+  | nil => simp only [encodeHead] at hn ⊢; pfx_one
+  | bool b => cases b <;> (simp only [encodeHead] at hn ⊢; pfx_one)
+  | uint x =>
+    simp only [encodeHead] at hn ⊢
+    split at hn <;> rename_i c0
+    · rw [if_pos c0]; pfx_one
+    rw [if_neg c0]
+    split at hn <;> rename_i c1
+    · rw [if_pos c1]; pfx_two
+    rw [if_neg c1]
+    split at hn <;> rename_i c2
+    · rw [if_pos c2]; pfx_multi 2
+    rw [if_neg c2]
+    split at hn <;> rename_i c3
+    · rw [if_pos c3]; pfx_multi 4
+    rw [if_neg c3]
+    pfx_multi 8
+  | nint x =>
+    simp only [encodeHead] at hn ⊢
+    split at hn <;> rename_i c0
+    · rw [if_pos c0]; pfx_one
+    rw [if_neg c0]
+    split at hn <;> rename_i c1
+    · rw [if_pos c1]; pfx_two
+    rw [if_neg c1]
+    split at hn <;> rename_i c2
+    · rw [if_pos c2]; pfx_multi 2
+    rw [if_neg c2]
+    split at hn <;> rename_i c3
+    · rw [if_pos c3]; pfx_multi 4
+    rw [if_neg c3]
+    pfx_multi 8
+  | str x =>
+    simp only [encodeHead] at hn ⊢
+    split at hn <;> rename_i c0
+    · rw [if_pos c0]; pfx_one
+    rw [if_neg c0]
+    split at hn <;> rename_i c1
+    · rw [if_pos c1]; pfx_two
+    rw [if_neg c1]
+    split at hn <;> rename_i c2
+    · rw [if_pos c2]; pfx_multi 2
+    rw [if_neg c2]
+    pfx_multi 4
+  | bin x =>
+    simp only [encodeHead] at hn ⊢
+    split at hn <;> rename_i c0
+    · rw [if_pos c0]; pfx_two
+    rw [if_neg c0]
+    split at hn <;> rename_i c1
+    · rw [if_pos c1]; pfx_multi 2
+    rw [if_neg c1]
+    pfx_multi 4
+  | arr x =>
+    simp only [encodeHead] at hn ⊢
+    split at hn <;> rename_i c0
+    · rw [if_pos c0]; pfx_one
+    rw [if_neg c0]
+    split at hn <;> rename_i c1
+    · rw [if_pos c1]; pfx_multi 2
+    rw [if_neg c1]
+    pfx_multi 4
+  | map x =>
+    simp only [encodeHead] at hn ⊢
+    split at hn <;> rename_i c0
+    · rw [if_pos c0]; pfx_one
+    rw [if_neg c0]
+    split at hn <;> rename_i c1
+    · rw [if_pos c1]; pfx_multi 2
+    rw [if_neg c1]
+    pfx_multi 4
+
+theorem decodeSeq_prefix_none (dec : List Nat → Option (Val × List Nat)) (xs : List Val)
+    (h : ∀ x ∈ xs, (∀ r, dec (encode x ++ r) = none ∨ dec (encode x ++ r) = some (x, r)) ∧
+      (∀ k, k < (encode x).length → dec ((encode x).take k) = none))
+    (m : Nat) (hm : m < (encodeList xs).length) :
+    decodeSeq dec xs.length ((encodeList xs).take m) = none := by
+  induction xs generalizing m with
+  | nil => simp [encodeList] at hm
+  | cons x xs ih =>
+    simp only [encodeList, List.length_append] at hm
+    simp only [List.length_cons, encodeList, decodeSeq]
+    obtain ⟨hx1, hx2⟩ := h x (by simp)
+    by_cases hlt : m < (encode x).length
+    · rw [List.take_append_of_le_length (by omega), hx2 m hlt]
+    · rw [List.take_append, List.take_of_length_le (by omega)]
+      rcases hx1 ((encodeList xs).take (m - (encode x).length)) with e | e
+      · rw [e]
+      · rw [e]; simp only
+        rw [ih (fun y hy => h y (by simp [hy])) _ (by omega)]
+
+theorem decodePairs_prefix_none (dec : List Nat → Option (Val × List Nat)) (ps : List (Val × Val))
+    (h : ∀ p ∈ ps, ((∀ r, dec (encode p.1 ++ r) = none ∨ dec (encode p.1 ++ r) = some (p.1, r)) ∧
+        (∀ k, k < (encode p.1).length → dec ((encode p.1).take k) = none)) ∧
+      ((∀ r, dec (encode p.2 ++ r) = none ∨ dec (encode p.2 ++ r) = some (p.2, r)) ∧
+        (∀ k, k < (encode p.2).length → dec ((encode p.2).take k) = none)))
+    (m : Nat) (hm : m < (encodePairs ps).length) :
+    decodePairs dec ps.length ((encodePairs ps).take m) = none := by
+  induction ps generalizing m with
+  | nil => simp [encodePairs] at hm
+  | cons p ps ih =>
+    obtain ⟨k, v⟩ := p
+    simp only [encodePairs, List.length_append] at hm
+    simp only [List.length_cons, encodePairs, decodePairs]
+    obtain ⟨⟨hk1, hk2⟩, ⟨hv1, hv2⟩⟩ := h (k, v) (by simp)
+    simp only at hk1 hk2 hv1 hv2
+    by_cases hlt : m < (encode k).length
+    · rw [List.take_append_of_le_length (by omega), hk2 m hlt]
+    · rw [List.take_append, List.take_of_length_le (by omega)]
+      rcases hk1 ((encode v ++ encodePairs ps).take (m - (encode k).length)) with e | e
+      · rw [e]
+      · rw [e]; simp only
+        by_cases hlt2 : m - (encode k).length < (encode v).length
+        · rw [List.take_append_of_le_length (by omega), hv2 _ hlt2]
+        · rw [List.take_append, List.take_of_length_le (by omega)]
+          rcases hv1 ((encodePairs ps).take (m - (encode k).length - (encode v).length)) with e2 | e2
+          · rw [e2]
+          · rw [e2]; simp only
+            rw [ih (fun y hy => h y (by simp [hy])) _ (by omega)]
+
+
+theorem decodeF_head_none (f : Nat) (bs : List Nat) (h : decodeHead bs = none) : decodeF (f + 1) bs = none := by
+  rw [decodeF, h]
+
+/-- no strict prefix of the encoding of a well-formed value decodes, whatever the nesting budget -/
+theorem decodeF_prefix_none (v : Val) (fuel n : Nat) (hw : wf v = true) (hn : n < (encode v).length) :
+    decodeF fuel ((encode v).take n) = none := by
+  match fuel, v with
+  | 0, _ => rfl
+  | f+1, .nil => simp only [encode] at hn ⊢; exact decodeF_head_none f _ (head_prefix_none _ n hn)
+  | f+1, .bool b => simp only [encode] at hn ⊢; exact decodeF_head_none f _ (head_prefix_none _ n hn)
+  | f+1, .uint x => simp only [encode] at hn ⊢; exact decodeF_head_none f _ (head_prefix_none _ n hn)
+  | f+1, .nint x => simp only [encode] at hn ⊢; exact decodeF_head_none f _ (head_prefix_none _ n hn)
+  | f+1, .str s =>
+    simp only [wf, Bool.and_eq_true] at hw
+    simp only [encode, List.length_append] at hn ⊢
+    by_cases hlt : n < (encodeHead (.str s.length)).length
+    · rw [List.take_append_of_le_length (by omega)]
+      exact decodeF_head_none f _ (head_prefix_none _ n hlt)
+    · rw [List.take_append, List.take_of_length_le (by omega), decodeF,
+        decodeHead_encodeHead _ _ (show wfHead (.str s.length) = true from hw.1)]
+      simp only
+      rw [takeN_short _ _ (by rw [List.length_take]; omega)]; rfl
+  | f+1, .bin s =>
+    simp only [wf, Bool.and_eq_true] at hw
+    simp only [encode, List.length_append] at hn ⊢
+    by_cases hlt : n < (encodeHead (.bin s.length)).length
+    · rw [List.take_append_of_le_length (by omega)]
+      exact decodeF_head_none f _ (head_prefix_none _ n hlt)
+    · rw [List.take_append, List.take_of_length_le (by omega), decodeF,
+        decodeHead_encodeHead _ _ (show wfHead (.bin s.length) = true from hw.1)]
+      simp only
+      rw [takeN_short _ _ (by rw [List.length_take]; omega)]; rfl
+  | f+1, .arr xs =>
+    simp only [wf, Bool.and_eq_true] at hw
+    simp only [encode, List.length_append] at hn ⊢
+    by_cases hlt : n < (encodeHead (.arr xs.length)).length
+    · rw [List.take_append_of_le_length (by omega)]
+      exact decodeF_head_none f _ (head_prefix_none _ n hlt)
+    · have ih : ∀ x ∈ xs, (∀ r, decodeF f (encode x ++ r) = none ∨ decodeF f (encode x ++ r) = some (x, r)) ∧
+          (∀ k, k < (encode x).length → decodeF f ((encode x).take k) = none) := fun x hx =>
+        ⟨fun r => decodeF_encode_or_none x f r (wfList_mem hw.2 x hx),
+         fun k hk => decodeF_prefix_none x f k (wfList_mem hw.2 x hx) hk⟩
+      rw [List.take_append, List.take_of_length_le (by omega), decodeF,
+        decodeHead_encodeHead _ _ (show wfHead (.arr xs.length) = true from hw.1)]
+      simp only
+      rw [decodeSeq_prefix_none (decodeF f) xs ih _ (by omega)]; rfl
+  | f+1, .map ps =>
+    simp only [wf, Bool.and_eq_true] at hw
+    simp only [encode, List.length_append] at hn ⊢
+    by_cases hlt : n < (encodeHead (.map ps.length)).length
+    · rw [List.take_append_of_le_length (by omega)]
+      exact decodeF_head_none f _ (head_prefix_none _ n hlt)
+    · have ih : ∀ p ∈ ps, ((∀ r, decodeF f (encode p.1 ++ r) = none ∨ decodeF f (encode p.1 ++ r) = some (p.1, r)) ∧
+            (∀ k, k < (encode p.1).length → decodeF f ((encode p.1).take k) = none)) ∧
+          ((∀ r, decodeF f (encode p.2 ++ r) = none ∨ decodeF f (encode p.2 ++ r) = some (p.2, r)) ∧
+            (∀ k, k < (encode p.2).length → decodeF f ((encode p.2).take k) = none)) := fun p hp =>
+        ⟨⟨fun r => decodeF_encode_or_none p.1 f r (wfPairs_mem hw.2 p hp).1,
+          fun k hk => decodeF_prefix_none p.1 f k (wfPairs_mem hw.2 p hp).1 hk⟩,
+         ⟨fun r => decodeF_encode_or_none p.2 f r (wfPairs_mem hw.2 p hp).2,
+          fun k hk => decodeF_prefix_none p.2 f k (wfPairs_mem hw.2 p hp).2 hk⟩⟩
+      rw [List.take_append, List.take_of_length_le (by omega), decodeF,
+        decodeHead_encodeHead _ _ (show wfHead (.map ps.length) = true from hw.1)]
+      simp only
+      rw [decodePairs_prefix_none (decodeF f) ps ih _ (by omega)]; rfl
+termination_by sizeOf v
+decreasing_by
+  all_goals simp_wf
+  · have := List.sizeOf_lt_of_mem hx; omega
+  · have := List.sizeOf_lt_of_mem hp
+    have : sizeOf p.1 < sizeOf p := by cases p; simp; omega
+    omega
+  · have := List.sizeOf_lt_of_mem hp
+    have : sizeOf p.2 < sizeOf p := by cases p; simp; omega
+    omega
+
+/-- **MessagePack is prefix-free on well-formed values**: no strict prefix of `encode v` decodes. -/
+theorem prefix_rejected (v : Val) (hw : WellFormed v) (n : Nat) (hn : n < (encode v).length) :
+    decode ((encode v).take n) = none := by
+  unfold decode
+  exact decodeF_prefix_none v _ n hw hn
+
+/-- the encoder is injective on well-formed values -/
+theorem encode_injective (v w : Val) (hv : WellFormed v) (_hw : WellFormed w) (h : encode v = encode w) : v = w := by
+  have a := decode_encode v [] hv
+  have b := decode_encode w [] _hw
+  rw [h, b] at a
+  exact ((Prod.mk.inj (Option.some.inj a)).1).symm
+
+/-- even stronger: two encodings followed by arbitrary bytes that agree as byte strings carry the same value and the same rest -/
+theorem encode_append_injective (v w : Val) (r s : List Nat) (hv : WellFormed v) (hw : WellFormed w)
+    (h : encode v ++ r = encode w ++ s) : v = w ∧ r = s := by
+  have a := decode_encode v r hv
+  have b := decode_encode w s hw
+  rw [h, b] at a
+  have := Prod.mk.inj (Option.some.inj a)
+  exact ⟨this.1.symm, this.2.symm⟩
+
+
+/-! ## the decoder's range: decoded values are well-formed; the decoder normalises -/
+
+theorem isBytes_iff (bs : List Nat) : isBytes bs = true ↔ ∀ b ∈ bs, b < 256 := by
+  simp [isBytes, List.all_eq_true]
+
+theorem foldl_lt (bs : List Nat) (hb : ∀ b ∈ bs, b < 256) (a : Nat) :
+    bs.foldl (fun a b => a * 256 + b) a < (a + 1) * 256 ^ bs.length := by
+  induction bs generalizing a with
+  | nil => simp
+  | cons b bs ih =>
+    have hb0 := hb b (by simp)
+    have := ih (fun x hx => hb x (by simp [hx])) (a * 256 + b)
+    simp only [List.foldl_cons, List.length_cons, Nat.pow_succ]
+    calc _ < (a * 256 + b + 1) * 256 ^ bs.length := this
+      _ ≤ ((a + 1) * 256) * 256 ^ bs.length := Nat.mul_le_mul_right _ (by omega)
+      _ = (a + 1) * (256 ^ bs.length * 256) := by rw [Nat.mul_assoc, Nat.mul_comm 256]
+
+theorem readBE_bound (k : Nat) (bs : List Nat) (hb : isBytes bs = true) (n : Nat) (r : List Nat)
+    (h : readBE k bs = some (n, r)) : n < 256 ^ k ∧ isBytes r = true := by
+  rw [isBytes_iff] at hb
+  unfold readBE at h
+  split at h
+  · cases h
+  · rename_i hl
+    simp only [Option.some.injEq, Prod.mk.injEq] at h
+    obtain ⟨rfl, rfl⟩ := h
+    constructor
+    · have := foldl_lt (bs.take k) (fun b hb' => hb b (List.mem_of_mem_take hb')) 0
+      simp only [Nat.zero_add, Nat.one_mul, List.length_take] at this
+      rw [Nat.min_eq_left (by omega)] at this
+      exact this
+    · rw [isBytes_iff]; exact fun b hb' => hb b (List.mem_of_mem_drop hb')
+
+theorem signedHead_wf (k u : Nat) (hk : k ≤ 8) (hu : u < 256 ^ k) : wfHead (signedHead k u) = true := by
+  have h8 : 256 ^ k ≤ 256 ^ 8 := Nat.pow_le_pow_right (by omega) hk
+  have e8 : (256:Nat) ^ 8 = 18446744073709551616 := by decide
+  unfold signedHead
+  split
+  · simp only [wfHead, decide_eq_true_eq]; omega
+  · simp only [wfHead, decide_eq_true_eq]; omega
+
+theorem isBytes_cons (b : Nat) (bs : List Nat) (h : isBytes (b :: bs) = true) : b < 256 ∧ isBytes bs = true := by
+  simpa [isBytes] using h
+
+theorem map_readBE (k : Nat) (bs : List Nat) (hb : isBytes bs = true) (g : Nat → Head) (hd : Head) (r : List Nat)
+    (h : (readBE k bs).map (fun x => (g x.1, x.2)) = some (hd, r)) :
+    ∃ n, n < 256 ^ k ∧ hd = g n ∧ isBytes r = true := by
+  cases hr : readBE k bs with
+  | none => simp [hr] at h
+  | some p =>
+    obtain ⟨n, r'⟩ := p
+    rw [hr] at h
+    simp only [Option.map_some, Option.some.injEq, Prod.mk.injEq] at h
+    obtain ⟨rfl, rfl⟩ := h
+    obtain ⟨h1, h2⟩ := readBE_bound k bs hb n r' hr
+    exact ⟨n, h1, rfl, h2⟩
+
+theorem decodeHead_wf (bs : List Nat) (hb : isBytes bs = true) (hd : Head) (r : List Nat)
+    (h : decodeHead bs = some (hd, r)) : wfHead hd = true ∧ isBytes r = true := by
+  cases bs with
+  | nil => simp [decodeHead] at h
+  | cons b bs =>
+    obtain ⟨hb0, hbs⟩ := isBytes_cons b bs hb
+    simp only [decodeHead] at h
+    by_cases c0 : b < 128
+    · rw [if_pos c0] at h
+      simp only [Option.some.injEq, Prod.mk.injEq] at h
+      obtain ⟨rfl, rfl⟩ := h
+      exact ⟨by first | (simp only [wfHead, decide_eq_true_eq]; omega) | rfl, hbs⟩
+    rw [if_neg c0] at h
+    by_cases c1 : b < 144
+    · rw [if_pos c1] at h
+      simp only [Option.some.injEq, Prod.mk.injEq] at h
+      obtain ⟨rfl, rfl⟩ := h
+      exact ⟨by first | (simp only [wfHead, decide_eq_true_eq]; omega) | rfl, hbs⟩
+    rw [if_neg c1] at h
+    by_cases c2 : b < 160
+    · rw [if_pos c2] at h
+      simp only [Option.some.injEq, Prod.mk.injEq] at h
+      obtain ⟨rfl, rfl⟩ := h
+      exact ⟨by first | (simp only [wfHead, decide_eq_true_eq]; omega) | rfl, hbs⟩
+    rw [if_neg c2] at h
+    by_cases c3 : b < 192
+    · rw [if_pos c3] at h
+      simp only [Option.some.injEq, Prod.mk.injEq] at h
+      obtain ⟨rfl, rfl⟩ := h
+      exact ⟨by first | (simp only [wfHead, decide_eq_true_eq]; omega) | rfl, hbs⟩
+    rw [if_neg c3] at h
+    by_cases c4 : b = 192
+    · rw [if_pos c4] at h
+      simp only [Option.some.injEq, Prod.mk.injEq] at h
+      obtain ⟨rfl, rfl⟩ := h
+      exact ⟨by first | (simp only [wfHead, decide_eq_true_eq]; omega) | rfl, hbs⟩
+    rw [if_neg c4] at h
+    by_cases c5 : b = 194
+    · rw [if_pos c5] at h
+      simp only [Option.some.injEq, Prod.mk.injEq] at h
+      obtain ⟨rfl, rfl⟩ := h
+      exact ⟨by first | (simp only [wfHead, decide_eq_true_eq]; omega) | rfl, hbs⟩
+    rw [if_neg c5] at h
+    by_cases c6 : b = 195
+    · rw [if_pos c6] at h
+      simp only [Option.some.injEq, Prod.mk.injEq] at h
+      obtain ⟨rfl, rfl⟩ := h
+      exact ⟨by first | (simp only [wfHead, decide_eq_true_eq]; omega) | rfl, hbs⟩
+    rw [if_neg c6] at h
+    by_cases c7 : b = 196
+    · rw [if_pos c7] at h
+      obtain ⟨n, hn, rfl, hr⟩ := map_readBE _ bs hbs _ hd r h
+      refine ⟨?_, hr⟩
+      simp only [wfHead, decide_eq_true_eq]
+      simp only [Nat.reducePow] at hn
+      omega
+    rw [if_neg c7] at h
+    by_cases c8 : b = 197
+    · rw [if_pos c8] at h
+      obtain ⟨n, hn, rfl, hr⟩ := map_readBE _ bs hbs _ hd r h
+      refine ⟨?_, hr⟩
+      simp only [wfHead, decide_eq_true_eq]
+      simp only [Nat.reducePow] at hn
+      omega
+    rw [if_neg c8] at h
+    by_cases c9 : b = 198
+    · rw [if_pos c9] at h
+      obtain ⟨n, hn, rfl, hr⟩ := map_readBE _ bs hbs _ hd r h
+      refine ⟨?_, hr⟩
+      simp only [wfHead, decide_eq_true_eq]
+      simp only [Nat.reducePow] at hn
+      omega
+    rw [if_neg c9] at h
+    by_cases c10 : b = 204
+    · rw [if_pos c10] at h
+      obtain ⟨n, hn, rfl, hr⟩ := map_readBE _ bs hbs _ hd r h
+      refine ⟨?_, hr⟩
+      simp only [wfHead, decide_eq_true_eq]
+      simp only [Nat.reducePow] at hn
+      omega
+    rw [if_neg c10] at h
+    by_cases c11 : b = 205
+    · rw [if_pos c11] at h
+      obtain ⟨n, hn, rfl, hr⟩ := map_readBE _ bs hbs _ hd r h
+      refine ⟨?_, hr⟩
+      simp only [wfHead, decide_eq_true_eq]
+      simp only [Nat.reducePow] at hn
+      omega
+    rw [if_neg c11] at h
+    by_cases c12 : b = 206
+    · rw [if_pos c12] at h
+      obtain ⟨n, hn, rfl, hr⟩ := map_readBE _ bs hbs _ hd r h
+      refine ⟨?_, hr⟩
+      simp only [wfHead, decide_eq_true_eq]
+      simp only [Nat.reducePow] at hn
+      omega
+    rw [if_neg c12] at h
+    by_cases c13 : b = 207
+    · rw [if_pos c13] at h
+      obtain ⟨n, hn, rfl, hr⟩ := map_readBE _ bs hbs _ hd r h
+      refine ⟨?_, hr⟩
+      simp only [wfHead, decide_eq_true_eq]
+      simp only [Nat.reducePow] at hn
+      omega
+    rw [if_neg c13] at h
+    by_cases c14 : b = 208
+    · rw [if_pos c14] at h
+      obtain ⟨n, hn, rfl, hr⟩ := map_readBE _ bs hbs (fun n => signedHead _ n) hd r h
+      exact ⟨signedHead_wf _ n (by omega) hn, hr⟩
+    rw [if_neg c14] at h
+    by_cases c15 : b = 209
+    · rw [if_pos c15] at h
+      obtain ⟨n, hn, rfl, hr⟩ := map_readBE _ bs hbs (fun n => signedHead _ n) hd r h
+      exact ⟨signedHead_wf _ n (by omega) hn, hr⟩
+    rw [if_neg c15] at h
+    by_cases c16 : b = 210
+    · rw [if_pos c16] at h
+      obtain ⟨n, hn, rfl, hr⟩ := map_readBE _ bs hbs (fun n => signedHead _ n) hd r h
+      exact ⟨signedHead_wf _ n (by omega) hn, hr⟩
+    rw [if_neg c16] at h
+    by_cases c17 : b = 211
+    · rw [if_pos c17] at h
+      obtain ⟨n, hn, rfl, hr⟩ := map_readBE _ bs hbs (fun n => signedHead _ n) hd r h
+      exact ⟨signedHead_wf _ n (by omega) hn, hr⟩
+    rw [if_neg c17] at h
+    by_cases c18 : b = 217
+    · rw [if_pos c18] at h
+      obtain ⟨n, hn, rfl, hr⟩ := map_readBE _ bs hbs _ hd r h
+      refine ⟨?_, hr⟩
+      simp only [wfHead, decide_eq_true_eq]
+      simp only [Nat.reducePow] at hn
+      omega
+    rw [if_neg c18] at h
+    by_cases c19 : b = 218
+    · rw [if_pos c19] at h
+      obtain ⟨n, hn, rfl, hr⟩ := map_readBE _ bs hbs _ hd r h
+      refine ⟨?_, hr⟩
+      simp only [wfHead, decide_eq_true_eq]
+      simp only [Nat.reducePow] at hn
+      omega
+    rw [if_neg c19] at h
+    by_cases c20 : b = 219
+    · rw [if_pos c20] at h
+      obtain ⟨n, hn, rfl, hr⟩ := map_readBE _ bs hbs _ hd r h
+      refine ⟨?_, hr⟩
+      simp only [wfHead, decide_eq_true_eq]
+      simp only [Nat.reducePow] at hn
+      omega
+    rw [if_neg c20] at h
+    by_cases c21 : b = 220
+    · rw [if_pos c21] at h
+      obtain ⟨n, hn, rfl, hr⟩ := map_readBE _ bs hbs _ hd r h
+      refine ⟨?_, hr⟩
+      simp only [wfHead, decide_eq_true_eq]
+      simp only [Nat.reducePow] at hn
+      omega
+    rw [if_neg c21] at h
+    by_cases c22 : b = 221
+    · rw [if_pos c22] at h
+      obtain ⟨n, hn, rfl, hr⟩ := map_readBE _ bs hbs _ hd r h
+      refine ⟨?_, hr⟩
+      simp only [wfHead, decide_eq_true_eq]
+      simp only [Nat.reducePow] at hn
+      omega
+    rw [if_neg c22] at h
+    by_cases c23 : b = 222
+    · rw [if_pos c23] at h
+      obtain ⟨n, hn, rfl, hr⟩ := map_readBE _ bs hbs _ hd r h
+      refine ⟨?_, hr⟩
+      simp only [wfHead, decide_eq_true_eq]
+      simp only [Nat.reducePow] at hn
+      omega
+    rw [if_neg c23] at h
+    by_cases c24 : b = 223
+    · rw [if_pos c24] at h
+      obtain ⟨n, hn, rfl, hr⟩ := map_readBE _ bs hbs _ hd r h
+      refine ⟨?_, hr⟩
+      simp only [wfHead, decide_eq_true_eq]
+      simp only [Nat.reducePow] at hn
+      omega
+    rw [if_neg c24] at h
+    by_cases c25 : 224 ≤ b ∧ b < 256
+    · rw [if_pos c25] at h
+      simp only [Option.some.injEq, Prod.mk.injEq] at h
+      obtain ⟨rfl, rfl⟩ := h
+      exact ⟨by first | (simp only [wfHead, decide_eq_true_eq]; omega) | rfl, hbs⟩
+    rw [if_neg c25] at h
+    cases h
+
+theorem takeN_spec (n : Nat) (bs s r : List Nat) (hb : isBytes bs = true) (h : takeN n bs = some (s, r)) :
+    s.length = n ∧ isBytes s = true ∧ isBytes r = true := by
+  rw [isBytes_iff] at hb
+  unfold takeN at h
+  split at h
+  · cases h
+  · simp only [Option.some.injEq, Prod.mk.injEq] at h
+    obtain ⟨rfl, rfl⟩ := h
+    refine ⟨by rw [List.length_take]; omega, ?_, ?_⟩
+    · rw [isBytes_iff]; exact fun b hb' => hb b (List.mem_of_mem_take hb')
+    · rw [isBytes_iff]; exact fun b hb' => hb b (List.mem_of_mem_drop hb')
+
+theorem decodeSeq_wf (dec : List Nat → Option (Val × List Nat))
+    (hdec : ∀ bs v r, isBytes bs = true → dec bs = some (v, r) → wf v = true ∧ isBytes r = true) :
+    ∀ n bs xs r, isBytes bs = true → decodeSeq dec n bs = some (xs, r) →
+      xs.length = n ∧ wfList xs = true ∧ isBytes r = true := by
+  intro n
+  induction n with
+  | zero =>
+    intro bs xs r hb h
+    simp only [decodeSeq, Option.some.injEq, Prod.mk.injEq] at h
+    obtain ⟨rfl, rfl⟩ := h
+    exact ⟨rfl, rfl, hb⟩
+  | succ n ih =>
+    intro bs xs r hb h
+    simp only [decodeSeq] at h
+    cases h1 : dec bs with
+    | none => simp [h1] at h
+    | some p =>
+      obtain ⟨v, r1⟩ := p
+      rw [h1] at h
+      simp only at h
+      obtain ⟨wv, b1⟩ := hdec bs v r1 hb h1
+      cases h2 : decodeSeq dec n r1 with
+      | none => simp [h2] at h
+      | some q =>
+        obtain ⟨vs, r2⟩ := q
+        rw [h2] at h
+        simp only [Option.some.injEq, Prod.mk.injEq] at h
+        obtain ⟨rfl, rfl⟩ := h
+        obtain ⟨l, w, b2⟩ := ih r1 vs r2 b1 h2
+        exact ⟨by simp [l], by simp [wfList, wv, w], b2⟩
+
+theorem decodePairs_wf (dec : List Nat → Option (Val × List Nat))
+    (hdec : ∀ bs v r, isBytes bs = true → dec bs = some (v, r) → wf v = true ∧ isBytes r = true) :
+    ∀ n bs ps r, isBytes bs = true → decodePairs dec n bs = some (ps, r) →
+      ps.length = n ∧ wfPairs ps = true ∧ isBytes r = true := by
+  intro n
+  induction n with
+  | zero =>
+    intro bs ps r hb h
+    simp only [decodePairs, Option.some.injEq, Prod.mk.injEq] at h
+    obtain ⟨rfl, rfl⟩ := h
+    exact ⟨rfl, rfl, hb⟩
+  | succ n ih =>
+    intro bs ps r hb h
+    simp only [decodePairs] at h
+    cases h1 : dec bs with
+    | none => simp [h1] at h
+    | some p =>
+      obtain ⟨k, r1⟩ := p
+      rw [h1] at h
+      simp only at h
+      obtain ⟨wk, b1⟩ := hdec bs k r1 hb h1
+      cases h1' : dec r1 with
+      | none => simp [h1'] at h
+      | some p' =>
+        obtain ⟨v, r1'⟩ := p'
+        rw [h1'] at h
+        simp only at h
+        obtain ⟨wv, b1'⟩ := hdec r1 v r1' b1 h1'
+        cases h2 : decodePairs dec n r1' with
+        | none => simp [h2] at h
+        | some q =>
+          obtain ⟨vs, r2⟩ := q
+          rw [h2] at h
+          simp only [Option.some.injEq, Prod.mk.injEq] at h
+          obtain ⟨rfl, rfl⟩ := h
+          obtain ⟨l, w, b2⟩ := ih r1' vs r2 b1' h2
+          exact ⟨by simp [l], by simp [wfPairs, wk, wv, w], b2⟩
+
+theorem decodeF_wf (f : Nat) : ∀ bs v r, isBytes bs = true → decodeF f bs = some (v, r) →
+    wf v = true ∧ isBytes r = true := by
+  induction f with
+  | zero => intro bs v r _ h; simp [decodeF] at h
+  | succ f ih =>
+    intro bs v r hb h
+    rw [decodeF] at h
+    cases hd : decodeHead bs with
+    | none => simp [hd] at h
+    | some p =>
+      obtain ⟨hh, r1⟩ := p
+      rw [hd] at h
+      obtain ⟨wh, b1⟩ := decodeHead_wf bs hb hh r1 hd
+      cases hh with
+      | nil => simp only [Option.some.injEq, Prod.mk.injEq] at h; obtain ⟨rfl, rfl⟩ := h; exact ⟨rfl, b1⟩
+      | bool b => simp only [Option.some.injEq, Prod.mk.injEq] at h; obtain ⟨rfl, rfl⟩ := h; exact ⟨rfl, b1⟩
+      | uint n => simp only [Option.some.injEq, Prod.mk.injEq] at h; obtain ⟨rfl, rfl⟩ := h; exact ⟨wh, b1⟩
+      | nint n => simp only [Option.some.injEq, Prod.mk.injEq] at h; obtain ⟨rfl, rfl⟩ := h; exact ⟨wh, b1⟩
+      | str n =>
+        simp only at h
+        cases ht : takeN n r1 with
+        | none => simp [ht] at h
+        | some q =>
+          obtain ⟨s, r2⟩ := q
+          rw [ht] at h
+          simp only [Option.map_some, Option.some.injEq, Prod.mk.injEq] at h
+          obtain ⟨rfl, rfl⟩ := h
+          obtain ⟨l, bs', br⟩ := takeN_spec n r1 s r2 b1 ht
+          simp only [wfHead, decide_eq_true_eq] at wh
+          exact ⟨by simp [wf, l, wh, bs'], br⟩
+      | bin n =>
+        simp only at h
+        cases ht : takeN n r1 with
+        | none => simp [ht] at h
+        | some q =>
+          obtain ⟨s, r2⟩ := q
+          rw [ht] at h
+          simp only [Option.map_some, Option.some.injEq, Prod.mk.injEq] at h
+          obtain ⟨rfl, rfl⟩ := h
+          obtain ⟨l, bs', br⟩ := takeN_spec n r1 s r2 b1 ht
+          simp only [wfHead, decide_eq_true_eq] at wh
+          exact ⟨by simp [wf, l, wh, bs'], br⟩
+      | arr n =>
+        simp only at h
+        cases ht : decodeSeq (decodeF f) n r1 with
+        | none => simp [ht] at h
+        | some q =>
+          obtain ⟨xs, r2⟩ := q
+          rw [ht] at h
+          simp only [Option.map_some, Option.some.injEq, Prod.mk.injEq] at h
+          obtain ⟨rfl, rfl⟩ := h
+          obtain ⟨l, w, br⟩ := decodeSeq_wf (decodeF f) ih n r1 xs r2 b1 ht
+          simp only [wfHead, decide_eq_true_eq] at wh
+          exact ⟨by simp [wf, l, wh, w], br⟩
+      | map n =>
+        simp only at h
+        cases ht : decodePairs (decodeF f) n r1 with
+        | none => simp [ht] at h
+        | some q =>
+          obtain ⟨ps, r2⟩ := q
+          rw [ht] at h
+          simp only [Option.map_some, Option.some.injEq, Prod.mk.injEq] at h
+          obtain ⟨rfl, rfl⟩ := h
+          obtain ⟨l, w, br⟩ := decodePairs_wf (decodeF f) ih n r1 ps r2 b1 ht
+          simp only [wfHead, decide_eq_true_eq] at wh
+          exact ⟨by simp [wf, l, wh, w], br⟩
+
+/-- whatever the decoder accepts from a byte string is a well-formed value (so `WellFormed` is exactly the
+decoder's range), and what is left over is again a byte string -/
+theorem decode_wf (bs : List Nat) (hb : isBytes bs = true) (v : Val) (r : List Nat) (h : decode bs = some (v, r)) :
+    WellFormed v ∧ isBytes r = true :=
+  decodeF_wf _ bs v r hb h
+
+/-- the decoder normalises: every accepted input — canonical or not — is equivalent to the canonical encoding of
+the value it yields (re-encoding and decoding again gives the same value and the same rest) -/
+theorem decode_normalises (bs : List Nat) (hb : isBytes bs = true) (v : Val) (r : List Nat)
+    (h : decode bs = some (v, r)) : decode (encode v ++ r) = some (v, r) :=
+  decode_encode v r (decode_wf bs hb v r h).1
+
 end SafeNet.MsgPack
